@@ -165,6 +165,6 @@ def main():
     }
     json.dump(m, open(os.path.join(V, "MANIFEST.json"), "w"), indent=1)
 
-HOOK_COMMITS = ["fdd0f01", "853c3fd"]
+HOOK_COMMITS = ["fdd0f01", "853c3fd", "fb6b1fb"]
 if __name__ == "__main__":
     main()
